@@ -18,9 +18,11 @@ then the check's search finds no failing input and says so; after review the bas
 What is fingerprinted (normalised `ast.unparse` text, docstrings dropped):
   * per class: base classes, decorators, class-level statements that are not method definitions, the NAMES of all methods, and the
     decorators + body of every SPECIAL method (dunder methods and `copy`) and of every method in LINKED;
-  * per module: every top-level statement that is not an import, a def/class, a docstring or a logger assignment; and which of the
-    settings constants it imports from where;
-  * module-level functions in LINKED_FUNCS.
+  * per module: every import statement, every top-level statement that is not a def/class or a docstring (logger assignments included),
+    the name, signature and a body hash of every module-level function, and which of the settings constants it imports from where;
+  * the values of scoda/config/default_settings.json.
+A body hash of a module-level function that IS translated on every run (util.py) is redundant with its equality theorem; it is kept because a
+translated function may also be called by spelling from untranslated glue.
 Bodies of ordinary methods are NOT fingerprinted: those are either translated (then the equality theorem is the check) or listed in
 docs/translation_coverage.md as modelled by hand.
 """
@@ -72,17 +74,27 @@ def fingerprint(repo=None):
             path = os.path.join(d, f)
             rel = os.path.relpath(path, repo)
             tree = ast.parse(open(path).read())
-            mod = {"top_level": [], "settings_imports": [], "classes": {}, "decorated_functions": {}}
+            mod = {"top_level": [], "settings_imports": [], "imports": [], "functions": {}, "classes": {}, "decorated_functions": {}}
             for s in tree.body:
                 if isinstance(s, (ast.Import, ast.ImportFrom)):
+                    # EVERY import is recorded (audit round 4, A1): the translators resolve callees by spelling (`binary_insort`, `int`, `round`,
+                    # `get_default_note_values` …), so `from math import ceil as int` or an import from another module changes what a translated
+                    # body means without changing the generated text
+                    mod["imports"].append(norm(s))
                     if isinstance(s, ast.ImportFrom):
                         for a in s.names:
                             if (s.module or "").endswith("settings") or a.name in SETTINGS_NAMES or a.name == "*" or (a.asname or "") in SETTINGS_NAMES:
                                 mod["settings_imports"].append(f"from {s.module} import {a.name}" + (f" as {a.asname}" if a.asname else ""))
                     continue
-                if is_doc(s) or is_logger(s):
+                if is_doc(s):
+                    continue
+                if is_logger(s):
+                    mod["top_level"].append(norm(s))          # the right-hand side too: a call there can do anything at import time
                     continue
                 if isinstance(s, (ast.FunctionDef, ast.AsyncFunctionDef)):
+                    # the NAMES of all module-level functions (a new `def binary_insort` in a calling module shadows the imported, translated
+                    # one) with a hash of the body of those that no translator re-reads on every run
+                    mod["functions"][s.name] = {"args": norm(s.args), "sha256": hashlib.sha256(body_text(s).encode()).hexdigest()[:16]}
                     if s.decorator_list:
                         mod["decorated_functions"][s.name] = [norm(x) for x in s.decorator_list]
                     continue
@@ -110,6 +122,14 @@ def fingerprint(repo=None):
                     continue
                 mod["top_level"].append(norm(s))
             fp[rel] = mod
+    # the settings VALUES are an input of the proofs (Gen/Settings.lean follows them); a changed default is a reviewable event like any other
+    # convention (audit round 4, A2)
+    cfg = os.path.join(root, "config", "default_settings.json")
+    if os.path.exists(cfg):
+        try:
+            fp["scoda/config/default_settings.json"] = json.load(open(cfg))
+        except Exception as e:
+            fp["scoda/config/default_settings.json"] = {"unreadable": str(e)}
     return fp
 
 
